@@ -56,6 +56,7 @@ type (
 type Param struct{ Name, Type string }
 
 type PureDecl struct {
+	Opaque bool // translated as an uninterpreted function; its definition is an axiom only where revealed
 	Name   string
 	Params []Param
 	Result string
@@ -72,6 +73,8 @@ type FoldDecl struct {
 }
 
 type InvDecl struct {
+	Using   []string // earlier lemmas of the module used as hypotheses
+	Reveal  []string
 	Name    string
 	Tags    []string
 	Body    Expr
@@ -97,6 +100,7 @@ type LoopSpec struct {
 }
 
 type FuncSpec struct {
+	Imported  bool   // contract taken from another module of the same package (used at call sites, verified there)
 	Name      string // "transfer" or "Token.transfer"
 	Params    []string
 	Results   []string
@@ -104,6 +108,7 @@ type FuncSpec struct {
 	Pure      bool
 	Trusted   bool
 	Nofault   bool
+	Reveal    []string // opaque pure functions whose definitions this proof may use
 	Given     Expr // condition under which no fault may occur
 	GivenText string
 	Loops     []LoopSpec
@@ -149,7 +154,7 @@ type parser struct {
 }
 
 var declKw = map[string]bool{"dialect": true, "use": true, "pure": true, "pred": true, "fold": true, "invariant": true,
-	"ghost": true, "lemma": true, "module": true, "props": true, "witness": true, "safe": true, "func": true, "ufun": true, "axiom": true, "nofault": true, "requires": true, "ensures": true, "loop": true, "frame": true, "trusted": true}
+	"ghost": true, "lemma": true, "module": true, "props": true, "opaque": true, "reveal": true, "witness": true, "safe": true, "func": true, "ufun": true, "axiom": true, "nofault": true, "requires": true, "ensures": true, "loop": true, "frame": true, "trusted": true}
 
 func (p *parser) peek() token { return p.toks[p.pos] }
 func (p *parser) next() token { t := p.toks[p.pos]; p.pos++; return t }
@@ -230,6 +235,28 @@ func Parse(src string) (f *File, err error) {
 				w.Text = p.textFrom(start)
 			}
 			f.Witness = append(f.Witness, w)
+		case "opaque":
+			cur, curLoop = nil, nil
+			if p.ident() != "pure" {
+				panic(fmt.Sprintf("line %d: expected `opaque pure`", t.line))
+			}
+			d := &PureDecl{Name: p.ident(), Opaque: true}
+			d.Params = p.params()
+			d.Result = p.typ()
+			p.expectOp("=")
+			d.Body = p.expr()
+			f.Pures[d.Name] = d
+		case "reveal":
+			if cur == nil {
+				panic(fmt.Sprintf("line %d: reveal outside func", t.line))
+			}
+			curLoop = nil
+			for !p.atBoundary() {
+				cur.Reveal = append(cur.Reveal, p.ident())
+				if p.isOp(",") {
+					p.next()
+				}
+			}
 		case "pure", "pred":
 			if t.s == "pure" && cur != nil && p.atBoundary() {
 				cur.Pure = true
@@ -299,6 +326,19 @@ func Parse(src string) (f *File, err error) {
 			d := &InvDecl{Name: p.ident()}
 			d.Tags = p.tags()
 			d.Finding, d.Region = p.finding()
+			for p.isKw("reveal") || p.isKw("using") {
+				kw := p.next().s
+				for !p.isOp(":") && !p.isKw("reveal") && !p.isKw("using") {
+					if kw == "reveal" {
+						d.Reveal = append(d.Reveal, p.ident())
+					} else {
+						d.Using = append(d.Using, p.ident())
+					}
+					if p.isOp(",") {
+						p.next()
+					}
+				}
+			}
 			p.expectOp(":")
 			start := p.peek().line
 			d.Body = p.expr()
